@@ -1,10 +1,18 @@
 """C20 — Cargo version requirements and cfg() expressions mean what Cargo says."""
 from __future__ import annotations
 
+import ast
+import dataclasses
+import functools
+import inspect
 import itertools
+import os
 import re
+import textwrap
+import types
 import typing as T
 
+from . import common
 from .common import Ctx, enc
 
 ID = 'C20'
@@ -23,6 +31,16 @@ PINS = [
     'mesonbuild.cargo.cfg:_eval_cfg',
     'mesonbuild.cargo.cfg:eval_cfg',
     'mesonbuild.utils.universal:lookahead',
+    'mesonbuild.utils.universal:lazy_property',
+    'mesonbuild.cargo.manifest:Dependency',
+    'mesonbuild.cargo.manifest:CargoLockPackage',
+    'mesonbuild.cargo.manifest:CargoLock',
+    'mesonbuild.cargo.manifest:_raw_to_dataclass',
+    'mesonbuild.cargo.interpreter:Interpreter._resolve_package',
+    'mesonbuild.cargo.interpreter:Interpreter.resolve_package',
+    'mesonbuild.cargo.interpreter:Interpreter._dep_package',
+    'mesonbuild.cargo.interpreter:Interpreter._get_cfgs',
+    'mesonbuild.cargo.interpreter:Interpreter._split_cfg',
 ]
 TRUSTED = [
     'Cargo matcher and SemVer 2.0.0 section 11 precedence are written down from the Cargo reference / semver.org '
@@ -479,6 +497,568 @@ def oracle_cfg_tokens(C, mex, toks) -> T.Optional[T.Tuple[str, str]]:
     return None
 
 
+
+# ------------------------------------------------------------------ consumer objects of the matcher
+# (manifest.Dependency & co.: lazily cached attributes, mutators, Cargo.lock resolution, cfg tables)
+
+CARGO_MODULES = ['mesonbuild.cargo.manifest', 'mesonbuild.cargo.interpreter']
+
+
+def is_lazy(attr: object) -> bool:
+    from mesonbuild.utils.universal import lazy_property
+    return isinstance(attr, (lazy_property, functools.cached_property))
+
+
+def lazy_func(attr: object):
+    if isinstance(attr, functools.cached_property):
+        return attr.func
+    for k, v in vars(attr).items():
+        if k.endswith('__func'):
+            return v
+    return None
+
+
+def harvest_lazy() -> T.Dict[type, T.List[str]]:
+    """every class of the cargo modules with lazy_property / cached_property attributes (from the live source)"""
+    import importlib
+    out: T.Dict[type, T.List[str]] = {}
+    for mn in CARGO_MODULES:
+        mod = importlib.import_module(mn)
+        for _n, cls in sorted(vars(mod).items()):
+            if inspect.isclass(cls) and cls.__module__ == mn:
+                names = sorted(k for k, v in vars(cls).items() if is_lazy(v))
+                if names:
+                    out[cls] = names
+    return out
+
+
+def self_fields_read(func) -> T.Set[str]:
+    try:
+        tree = ast.parse(textwrap.dedent(inspect.getsource(func)))
+    except (OSError, TypeError, SyntaxError):
+        return set()
+    return {n.attr for n in ast.walk(tree)
+            if isinstance(n, ast.Attribute) and isinstance(n.value, ast.Name) and n.value.id == 'self'}
+
+
+def harvest_mutators(cls: type) -> T.Dict[str, T.Tuple[T.Set[str], T.Optional[T.List[T.List[str]]]]]:
+    """methods of cls that assign instance fields: name -> (fields assigned, try/delattr block structure or None
+    when the body has a shape this reader does not know)"""
+    out = {}
+    for name, fn in vars(cls).items():
+        if not inspect.isfunction(fn) or name.startswith('__'):
+            continue
+        try:
+            fdef = ast.parse(textwrap.dedent(inspect.getsource(fn))).body[0]
+        except (OSError, TypeError, SyntaxError, IndexError):
+            continue
+        assigned = {t.attr for n in ast.walk(fdef) if isinstance(n, (ast.Assign, ast.AugAssign, ast.AnnAssign))
+                    for t in (n.targets if isinstance(n, ast.Assign) else [n.target])
+                    if isinstance(t, ast.Attribute) and isinstance(t.value, ast.Name) and t.value.id == 'self'}
+        if not assigned:
+            continue
+        out[name] = (assigned, read_blocks(fdef))
+    return out
+
+
+def _delattr_name(call: ast.AST) -> T.Optional[str]:
+    if isinstance(call, ast.Expr):
+        call = call.value
+    if isinstance(call, ast.Call) and isinstance(call.func, ast.Name) and call.func.id == 'delattr' \
+            and len(call.args) == 2 and isinstance(call.args[1], ast.Constant) and isinstance(call.args[1].value, str):
+        return call.args[1].value
+    return None
+
+
+def read_blocks(fdef: ast.FunctionDef) -> T.Optional[T.List[T.List[str]]]:
+    blocks: T.List[T.List[str]] = []
+    for st in fdef.body:
+        if isinstance(st, (ast.Assign, ast.AnnAssign, ast.Pass)):
+            continue
+        if isinstance(st, ast.Expr) and isinstance(st.value, ast.Constant):
+            continue   # docstring
+        if isinstance(st, ast.Try):
+            names = [_delattr_name(x) for x in st.body]
+            if any(n is None for n in names):
+                return None
+            catches = all(isinstance(h.type, ast.Name) and h.type.id == 'AttributeError' or h.type is None
+                          for h in st.handlers)
+            if not catches:
+                return None
+            blocks.append(T.cast(T.List[str], names))
+            continue
+        if isinstance(st, ast.For) and isinstance(st.iter, (ast.Tuple, ast.List)) and \
+                all(isinstance(e, ast.Constant) and isinstance(e.value, str) for e in st.iter.elts) and \
+                len(st.body) == 1 and isinstance(st.body[0], ast.Try):
+            blocks += [[e.value] for e in st.iter.elts]   # one try per element
+            continue
+        if isinstance(st, ast.Expr) and isinstance(st.value, ast.Call) and isinstance(st.value.func, ast.Attribute) \
+                and st.value.func.attr == 'pop' and st.value.args and isinstance(st.value.args[0], ast.Constant):
+            blocks.append([st.value.args[0].value])         # self.__dict__.pop('x', None)
+            continue
+        return None
+    return blocks
+
+
+def lean_str_list(l: T.Sequence[str]) -> str:
+    return '[' + ', '.join('"' + x + '"' for x in l) + ']'
+
+
+def gen_tables(ctx: Ctx) -> None:
+    """Generated/CargoCache.lean: lazy attributes of manifest.Dependency that read self.version, and the
+    try/delattr block structure of the method that assigns self.version (reflective obligation
+    `dependency_cache_table_ok`). Written only if changed. An unknown body shape leaves the table alone
+    (the history oracle and the differential stream still run)."""
+    from mesonbuild.cargo import manifest as M
+    cls = M.Dependency
+    attrs = sorted(k for k, v in vars(cls).items() if is_lazy(v) and 'version' in self_fields_read(lazy_func(v)))
+    muts = {n: b for n, (assigned, b) in harvest_mutators(cls).items() if 'version' in assigned}
+    if not muts or any(b is None for b in muts.values()):
+        ctx.notes.append('gen_tables: no version mutator with a known try/delattr shape on manifest.Dependency; '
+                         'Generated/CargoCache.lean left unchanged (history oracle only)')
+        return
+    name = 'update_version' if 'update_version' in muts else sorted(muts)[0]
+    blocks = muts[name]
+    others = [muts[n] for n in sorted(muts) if n != name]
+    def lb(b):
+        return '[' + ', '.join(lean_str_list(x) for x in b) + ']'
+    text = ('/- generated by harness/c20.py gen_tables from mesonbuild/cargo/manifest.py (class Dependency); do not edit -/\n'
+            'namespace MesonModel.Generated.CargoCache\n\n'
+            '/-- lazy_property / cached_property attributes of `Dependency` whose function reads `self.version` -/\n'
+            f'def lazyAttrs : List String := {lean_str_list(attrs)}\n\n'
+            f'/-- `Dependency.{name}`: the `try:` blocks after `self.version = v`, each the list of\n'
+            'attribute names it `delattr`s in order (an `AttributeError` ends the block) -/\n'
+            f'def updateBlocks : List (List String) := {lb(blocks)}\n\n'
+            '/-- the same for every other method that assigns `self.version` -/\n'
+            f'def otherMutatorBlocks : List (List (List String)) := [{", ".join(lb(b) for b in others)}]\n\n'
+            'end MesonModel.Generated.CargoCache\n')
+    path = os.path.join(common.LEAN, 'MesonModel', 'Generated', 'CargoCache.lean')
+    old = open(path, encoding='utf-8').read() if os.path.exists(path) else ''
+    if old != text:
+        with open(path, 'w', encoding='utf-8') as f:
+            f.write(text)
+        ctx.notes.append('Generated/CargoCache.lean rewritten from the current source')
+
+
+REQ_FORMS_RE = REQ_RE = re.compile(r'^\s*(\^|~|=|<=|<|>=|>|)\s*(\d+)(?:\.(\d+))?(?:\.(\d+))?(\.\*)?\s*$')
+
+
+def req_pieces(req: str):
+    """[(op, comps)] for a requirement made of the listed tag-free forms, None otherwise"""
+    out = []
+    if not req.strip():
+        return out
+    for piece in req.split(','):
+        if piece.strip() == '*':
+            continue
+        pm = REQ_RE.match(piece)
+        if not pm:
+            return None
+        nums = [x for x in pm.groups()[1:4] if x is not None]
+        if any(len(x) > 1 and x[0] == '0' for x in nums):
+            return None
+        op = pm.group(1) or '^'
+        if pm.group(5):
+            if pm.group(1) or len(nums) == 3:
+                return None
+            op = '~'
+        out.append((op, [int(x) for x in nums]))
+    return out
+
+
+def accepts_spec(req: str, vs: str) -> T.Optional[bool]:
+    """Cargo's rule (with the pinned deviations) for the CURRENT requirement text; pre-releases never
+    satisfy a tag-free requirement"""
+    pcs = req_pieces(req)
+    f = semver_fields(vs)
+    if pcs is None or f is None:
+        return None
+    if f[1]:
+        return False
+    return all(spec_matches(op, comps, f[0]) for op, comps in pcs)
+
+
+def api_spec(req: str) -> T.Optional[T.Tuple[str, str]]:
+    """the documented api string: '' if no lower bound, else major / '0.x' / '0'; ('raise','') if the
+    comparators disagree"""
+    pcs = req_pieces(req)
+    if pcs is None:
+        return None
+    apis = set()
+    for op, comps in pcs:
+        if op in ('>=', '=', '^', '~'):
+            if comps[0] != 0:
+                apis.add(str(comps[0]))
+            elif len(comps) >= 2 and comps[1] != 0:
+                apis.add('0.%d' % comps[1])
+            else:
+                apis.add('0')
+    if not apis:
+        return ('ok', '')
+    if len(apis) == 1:
+        return ('ok', apis.pop())
+    return ('raise', '')
+
+
+GRID = ['0.0.0', '0.0.1', '0.1.0', '0.2.3', '0.9.0', '1.0.0', '1.2.2', '1.2.3', '1.2.4', '1.5.0', '1.99.7', '2.0.0',
+        '2.4.5', '3.0.0', '10.0.0', '11.1.1', '1.2.3-rc.1', '2.0.0-alpha']
+
+
+def rand_requirement(rng, parts) -> str:
+    r = rng.random()
+    if r < 0.06:
+        return rng.choice(['', '*'])
+    if r < 0.3:
+        return '=' + rng.choice(GRID[:16])
+    k = rng.choice([1, 1, 1, 2])
+    ops = [o for o in OPSPELL]
+    return ', '.join(render_req(rng, rng.choice(ops), rng.choice(parts), rng.random() < 0.3).strip() for _ in range(k))
+
+
+def show_api_result(f: T.Callable[[], str], mex) -> str:
+    try:
+        return 'OK:' + enc(f())
+    except mex:
+        return 'ERR:MesonException'
+    except ValueError:
+        return 'ERR:ValueError'
+
+
+def run_dependency_history(M, mex, make, init_req: str, ops: T.Sequence[T.Tuple[str, T.Optional[str]]]):
+    """executes one history on a real Dependency; every read is checked against the specification for the
+    CURRENT requirement (the oracle never reads anything the history does not read).
+    returns (model protocol ops, implementation answers, first failure or None)"""
+    dep = make(init_req)
+    cur = init_req
+    wire: T.List[str] = []
+    outs: T.List[str] = []
+    fail = None
+    trace = []
+    for kind, arg in ops:
+        if kind == 'ra':
+            pred = dep.accepts_version
+            for v in GRID:
+                got = bool(pred(v))
+                wire.append('ra:' + enc(v))
+                outs.append(str(int(got)))
+                want = accepts_spec(cur, v)
+                if fail is None and want is not None and got != want:
+                    fail = (f'after {trace + ["accepts_version"]}: requirement {cur!r}, version {v!r}: '
+                            f'dep.accepts_version -> {got}, Cargo rule -> {want}')
+            trace.append('accepts_version')
+        elif kind == 'rp':
+            got_s = show_api_result(lambda: dep.api, mex)
+            wire.append('rp')
+            outs.append(got_s)
+            want = api_spec(cur)
+            if fail is None and want is not None:
+                want_s = 'OK:' + enc(want[1]) if want[0] == 'ok' else 'ERR:MesonException'
+                if got_s != want_s:
+                    fail = f'after {trace + ["api"]}: requirement {cur!r}: dep.api -> {got_s}, documented api -> {want_s}'
+            trace.append('api')
+        else:
+            dep.update_version(T.cast(str, arg))
+            cur = T.cast(str, arg)
+            wire.append('u:' + enc(cur))
+            outs.append('-')
+            trace.append(f'update_version({cur!r})')
+            if fail is None and dep.version != cur:
+                fail = f'after {trace}: dep.version is {dep.version!r}'
+    outs.append('V:' + enc(dep.version))
+    return wire, outs, fail
+
+
+def values_equal(a, b, probes) -> bool:
+    if callable(a) and callable(b):
+        for p in probes:
+            try:
+                if a(p) != b(p):
+                    return False
+            except Exception:
+                return False
+        return True
+    return a == b
+
+
+def generic_instance(cls: type, rng, parts):
+    """a dataclass instance from field annotations (strings under `from __future__ import annotations`)"""
+    kw = {}
+    for f in dataclasses.fields(cls):
+        ty = str(f.type)
+        has_default = f.default is not dataclasses.MISSING or f.default_factory is not dataclasses.MISSING  # type: ignore[misc]
+        if f.name == 'version' and ty in ('str', "<class 'str'>"):
+            kw[f.name] = rand_requirement(rng, parts) if cls.__name__ in ('Dependency', 'SystemDependency') \
+                else rng.choice(GRID)
+            continue
+        if has_default:
+            continue
+        if ty in ('str', "<class 'str'>"):
+            kw[f.name] = 'x'
+        elif ty in ('bool', "<class 'bool'>"):
+            kw[f.name] = False
+        elif ty in ('int', "<class 'int'>"):
+            kw[f.name] = 1
+        elif 'List' in ty or ty.startswith('list'):
+            kw[f.name] = []
+        elif 'Dict' in ty or ty.startswith('dict'):
+            kw[f.name] = {}
+        elif 'Set' in ty:
+            kw[f.name] = set()
+        elif 'Optional' in ty:
+            kw[f.name] = None
+        else:
+            kw[f.name] = 'x'
+    return cls(**kw)
+
+
+def mutator_args(fn, rng, parts) -> T.Optional[list]:
+    sig = inspect.signature(fn)
+    args = []
+    for name, p in list(sig.parameters.items())[1:]:
+        if p.default is not inspect.Parameter.empty:
+            continue
+        if str(p.annotation) in ('str', "<class 'str'>") or p.annotation is inspect.Parameter.empty:
+            args.append(rand_requirement(rng, parts))
+        else:
+            return None
+    return args
+
+
+def run_objects(ctx: Ctx, V, C, mex, add, parts) -> None:
+    """operation histories on the consumer objects of the matcher"""
+    from mesonbuild.cargo import manifest as M
+    rng = ctx.rng
+
+    # ---- (a) manifest.Dependency: spec oracle on every read + model differential
+    makers = {
+        'str': lambda r: M.Dependency.from_raw('foo', r),
+        'table': lambda r: M.Dependency.from_raw('foo', {'version': r, 'features': ['full']}),
+        'ctor': lambda r: M.Dependency('foo', r),
+    }
+    kinds = ['ra', 'rp', 'u']
+    seqs = [list(s) for n in range(1, 5) for s in itertools.product(kinds, repeat=n)]
+    hist: T.List[T.Tuple[str, str, list]] = []
+    for s in seqs:
+        for _rep in range(ctx.scale(2, 6)):
+            hist.append((rng.choice(list(makers)), rand_requirement(rng, parts),
+                         [(k, rand_requirement(rng, parts) if k == 'u' else None) for k in s] + [('ra', None), ('rp', None)]))
+    for _ in range(ctx.scale(1500, 15000)):
+        n = rng.randint(3, 9)
+        hist.append((rng.choice(list(makers)), rand_requirement(rng, parts),
+                     [(k, rand_requirement(rng, parts) if k == 'u' else None) for k in rng.choices(kinds, k=n)]))
+    # the order cargo/interpreter.py:_dep_package follows, and the pinned unit test's order
+    hist.append(('str', '1.0', [('ra', None), ('u', '=1.2.3'), ('ra', None), ('rp', None)]))
+    hist.append(('table', '>=1, <3', [('ra', None), ('u', '=2.0.0'), ('ra', None)]))
+    hist.append(('str', '1.0', [('rp', None), ('ra', None), ('u', '=1.2.3'), ('ra', None), ('rp', None)]))
+    for mk, init, ops in hist:
+        wire, outs, fail = run_dependency_history(M, mex, makers[mk], init, ops)
+        ctx.tag('objects:dependency-history')
+        add('hist', (mk, init, ops), f'hist {enc(init)}|{",".join(wire)}', ';'.join(outs))
+        if fail:
+            shape = '>'.join(k for k, _ in ops)
+            ctx.violation(f'object:Dependency:{mk}:{init}:{shape}', fail, {'object': 'manifest.Dependency', 'make': mk,
+                                                                        'init': init, 'ops': ops})
+
+    # ---- (b) every harvested lazy attribute: a read equals the value a FRESH object with the same fields computes
+    harvested = harvest_lazy()
+    ctx.extra['lazy_attributes'] = {c.__module__.split('.')[-1] + '.' + c.__name__: n for c, n in harvested.items()}
+    for cls, names in harvested.items():
+        label = cls.__name__
+        if not dataclasses.is_dataclass(cls):
+            ctx.tag('objects:undriven-class:' + label)
+            continue
+        muts = harvest_mutators(cls)
+        for _ in range(ctx.scale(150, 1500)):
+            try:
+                obj = generic_instance(cls, rng, parts)
+            except Exception as e:
+                ctx.tag(f'objects:undriven-class:{label}:{type(e).__name__}')
+                break
+            trace: T.List[str] = []
+            for _step in range(rng.randint(2, 7)):
+                if muts and rng.random() < 0.35:
+                    mname = rng.choice(sorted(muts))
+                    margs = mutator_args(getattr(cls, mname), rng, parts)
+                    if margs is None:
+                        continue
+                    try:
+                        getattr(obj, mname)(*margs)
+                    except Exception as e:
+                        trace.append(f'{mname}{tuple(margs)} raised {type(e).__name__}')
+                        continue
+                    trace.append(f'{mname}{tuple(margs)}')
+                else:
+                    a = rng.choice(names)
+                    ctx.count()
+                    ctx.tag(f'objects:lazy-read:{label}.{a}')
+                    try:
+                        got: T.Any = ('v', getattr(obj, a))
+                    except Exception as e:
+                        got = ('e', type(e).__name__)
+                    try:
+                        fresh = dataclasses.replace(obj)
+                        want: T.Any = ('v', getattr(fresh, a))
+                    except Exception as e:
+                        want = ('e', type(e).__name__)
+                    trace.append(a)
+                    same = got[0] == want[0] and (values_equal(got[1], want[1], GRID) if got[0] == 'v' else got[1] == want[1])
+                    if not same:
+                        fields = {f.name: getattr(obj, f.name) for f in dataclasses.fields(cls)
+                                  if isinstance(getattr(obj, f.name), (str, int, bool, type(None)))}
+                        ctx.violation(f'object:{label}.{a}:stale:{">".join(trace)}',
+                                      f'{label}.{a} after {trace} differs from the value a fresh {label} with the same fields '
+                                      f'({fields}) computes', {'object': label, 'attr': a, 'history': trace, 'fields': fields})
+                        break
+
+    # ---- (c) Cargo.lock driven resolution through the interpreter's own code
+    try:
+        from mesonbuild.cargo.interpreter import Interpreter, PackageConfiguration
+        from mesonbuild.mesonlib import MachineChoice
+        drive_resolution(ctx, V, M, mex, Interpreter, PackageConfiguration, MachineChoice, parts)
+        drive_cfg_tables(ctx, C, mex, Interpreter, MachineChoice)
+    except ImportError as e:
+        ctx.notes.append(f'objects: interpreter not importable ({e}); resolution / cfg-table streams skipped')
+
+
+class StubIncompatible(Exception):
+    pass
+
+
+def drive_resolution(ctx, V, M, mex, Interpreter, PackageConfiguration, MachineChoice, parts) -> None:
+    rng = ctx.rng
+    incompatible = 0
+    for _ in range(ctx.scale(1200, 12000)):
+        lock_versions = rng.sample(GRID, rng.randint(0, 7))
+        other = rng.sample(GRID[:16], rng.randint(0, 3))
+        lock = M.CargoLock(package=[M.CargoLockPackage('foo', v) for v in lock_versions] +
+                           [M.CargoLockPackage('bar', v) for v in other])
+        req = rand_requirement(rng, parts)
+        if req_pieces(req) is None:
+            continue
+        ok = [v for v in lock_versions if accepts_spec(req, v)]
+        best = None
+        for v in ok:
+            if best is None or semver_prec(v, best) > 0:
+                best = v
+        pre_ops = rng.choice([[], ['api'], ['accepts_version'], ['api', 'accepts_version'], ['accepts_version', 'api']])
+        dep = M.Dependency.from_raw('foo', req if rng.random() < 0.5 else {'version': req})
+        for a in pre_ops:
+            try:
+                getattr(dep, a)
+            except mex:
+                pass
+        fetched: T.List[T.Tuple[str, str]] = []
+        pkg_version = rng.choice(GRID[:16])
+        fake = types.SimpleNamespace(manifest=types.SimpleNamespace(package=types.SimpleNamespace(version=pkg_version)))
+        stub = types.SimpleNamespace(cargolock=lock if lock_versions or other or rng.random() < 0.5 else None)
+        stub._resolve_package = lambda n, a: Interpreter._resolve_package(stub, n, a)
+        stub._fetch_package = lambda n, api: (fetched.append((n, api)), fake)[1]
+        case = {'object': 'interpreter._dep_package', 'requirement': req, 'lock': lock_versions, 'read_before': pre_ops}
+        ctx.count()
+        ctx.tag('objects:dep_package')
+        # 1. _resolve_package alone
+        try:
+            got_pkg = Interpreter._resolve_package(stub, 'foo', V.cargo_parse(req))
+        except (AttributeError, TypeError) as e:
+            incompatible += 1
+            continue
+        got_v = None if got_pkg is None else got_pkg.version
+        want_v = best if stub.cargolock is not None else None
+        if got_v != want_v:
+            ctx.violation(f'object:resolve:{req}:{",".join(lock_versions)}',
+                          f'_resolve_package picks {got_v!r} from Cargo.lock {lock_versions} for {req!r}; the newest version '
+                          f'satisfying the requirement is {want_v!r}', case)
+            continue
+        # 2. the interpreter's own sequence: accepts_version -> update_version('=<lock version>') -> api
+        api_before = api_spec(req)
+        if api_before is None or (api_before[0] == 'raise' and want_v is None):
+            continue
+        try:
+            cfg = PackageConfiguration(for_machine=MachineChoice.HOST)
+            Interpreter._dep_package(stub, None, dep, cfg)
+        except mex:
+            continue
+        except (AttributeError, TypeError, KeyError, AssertionError) as e:
+            incompatible += 1
+            continue
+        cur = ('=' + want_v) if want_v is not None else (req if req else '=' + pkg_version)
+        problems = []
+        if dep.version != cur:
+            problems.append(f'dep.version is {dep.version!r}, expected {cur!r}')
+        at_fetch = ('=' + want_v) if want_v is not None else req
+        fetch_api = api_spec(at_fetch)
+        if fetched and fetch_api and fetch_api[0] == 'ok' and fetched[0] != ('foo', fetch_api[1]):
+            problems.append(f'_fetch_package was asked for {fetched[0]!r}, the requirement at that point {at_fetch!r} '
+                            f'has api {fetch_api[1]!r}')
+        want_api = api_spec(cur)
+        for v in GRID:
+            w = accepts_spec(cur, v)
+            if w is not None and bool(dep.accepts_version(v)) != w:
+                problems.append(f'afterwards dep.accepts_version({v!r}) is {not w} although the requirement is now {cur!r}')
+                break
+        if want_api and want_api[0] == 'ok':
+            try:
+                if dep.api != want_api[1]:
+                    problems.append(f'afterwards dep.api is {dep.api!r}, documented api of {cur!r} is {want_api[1]!r}')
+            except mex:
+                problems.append(f'afterwards dep.api raises for {cur!r}')
+        if problems:
+            ctx.violation(f'object:dep_package:{req}:{",".join(lock_versions)}:{">".join(pre_ops)}', problems[0], case)
+    if incompatible:
+        ctx.notes.append(f'objects: {incompatible} _dep_package/_resolve_package drives skipped (stub no longer fits the interpreter)')
+        ctx.tag('objects:dep_package-stub-incompatible', incompatible)
+
+
+def drive_cfg_tables(ctx, C, mex, Interpreter, MachineChoice) -> None:
+    """cfg evaluation through the interpreter's target-cfg table: rustc `--print cfg` lines and `--cfg` rust_args
+    -> _get_cfgs/_split_cfg -> eval_cfg"""
+    rng = ctx.rng
+    names = ['unix', 'target_os', 'target_arch', 'feature', 'debug_assertions', 'panic', 'a', 'b']
+    vals = ['linux', 'x86_64', 'unwind', 'x y', '', 'a,b', '1']
+    incompatible = 0
+    getter = getattr(Interpreter._get_cfgs, '__wrapped__', Interpreter._get_cfgs)
+    for _ in range(ctx.scale(1500, 15000)):
+        intended = {n: (rng.choice(vals) if rng.random() < 0.6 else '') for n in rng.sample(names, rng.randint(0, 6))}
+        lines = [n if (v == '' and rng.random() < 0.8) else f'{n}="{v}"' for n, v in intended.items()]
+        k = rng.randint(0, len(lines))
+        rustflags: T.List[str] = []
+        for l in lines[k:]:
+            rustflags += rng.choice([[], ['-C', 'opt-level=2']]) + ['--cfg', l]
+        rustc = types.SimpleNamespace(get_cfgs=lambda lines=lines, k=k: list(lines[:k]))
+        machine = MachineChoice.HOST
+        stub = types.SimpleNamespace(
+            environment=types.SimpleNamespace(coredata=types.SimpleNamespace(
+                compilers={machine: {'rust': rustc}},
+                optstore=types.SimpleNamespace(get_value_for=lambda *a, **kw: list(rustflags)))),
+            _split_cfg=Interpreter._split_cfg)
+        try:
+            table = getter(stub, machine, '')
+        except (AttributeError, TypeError, KeyError) as e:
+            incompatible += 1
+            continue
+        ctx.count()
+        ctx.tag('objects:cfg-table')
+        if table != intended:
+            ctx.violation(f'object:cfg-table:{sorted(intended.items())}',
+                          f'_get_cfgs builds {table!r} from cfg lines {lines[:k]} and rust_args {rustflags}; intended {intended!r}',
+                          {'object': 'interpreter._get_cfgs', 'lines': lines, 'k': k})
+            continue
+        t = rand_tree(rng, 3, names, vals[:4] + [''])
+        inner = render_tree(t, lambda: rng.choice(['', ' ']))
+        try:
+            got: T.Any = C.eval_cfg('cfg(' + inner + ')', table)
+        except mex:
+            got = 'MesonException'
+        want = truth(t, intended)
+        if got != want:
+            ctx.violation(f'object:cfg-eval:{inner}:{sorted(intended.items())}',
+                          f'eval_cfg(cfg({inner})) over the interpreter cfg table {table!r} = {got}, structure says {want}',
+                          {'expr': 'cfg(' + inner + ')', 'cfgs': intended})
+    if incompatible:
+        ctx.notes.append(f'objects: {incompatible} _get_cfgs drives skipped (stub no longer fits the interpreter)')
+        ctx.tag('objects:cfg-table-stub-incompatible', incompatible)
+
+
 # ------------------------------------------------------------------ generators
 
 PART = [0, 1, 2, 10]
@@ -846,6 +1426,9 @@ def run(ctx: Ctx) -> None:
         add('evalcfg', (raw, d), f'evalcfg {enc(raw)}|{enc_cfgs(d)}',
             parse_guard(C, mex, raw[4:-1], lambda: str(int(C.eval_cfg(raw, d)))))
 
+    # ---- 5. consumer objects (cached predicates, Cargo.lock resolution, cfg tables): operation histories
+    run_objects(ctx, V, C, mex, add, parts)
+
     # ---- correspondence: model driver on the same inputs
     ctx.count(len(cases))
     if getattr(ctx, 'model_available', True):
@@ -966,6 +1549,21 @@ def search(ctx: Ctx, disagreements: T.List[dict]) -> None:
                     if hit and hit[0] not in ctx.known:
                         ctx.violation(hit[0], hit[1], {'expr': 'cfg(' + n + ')', 'cfgs': dd})
                         return
+        if kind == 'hist':
+            from mesonbuild.cargo import manifest as M
+            mk, init, ops = inp
+            ops = [tuple(o) for o in ops]
+            makers = {'str': lambda r: M.Dependency.from_raw('foo', r),
+                      'table': lambda r: M.Dependency.from_raw('foo', {'version': r}),
+                      'ctor': lambda r: M.Dependency('foo', r)}
+            cands = [ops] + [ops[:i] + ops[i + 1:] for i in range(len(ops))]
+            for cand in cands:
+                _w, _o, fail = run_dependency_history(M, mex, makers.get(mk, makers['str']), init,
+                                                      list(cand) + [('ra', None), ('rp', None)])
+                if fail:
+                    ctx.violation(f'object:Dependency:{mk}:{init}:{">".join(k for k, _ in cand)}', fail,
+                                  {'object': 'manifest.Dependency', 'make': mk, 'init': init, 'ops': list(cand)})
+                    return
         if kind == 'parse':
             toks = [tuple(w) for w in inp]
             for i in range(len(toks) + 1):
@@ -995,7 +1593,17 @@ def replay(ctx: Ctx, rep: dict) -> None:
     V, C, mex = impl()
     case = rep.get('case', {})
     print('replay', rep.get('what'), case)
-    if 'req' in case:
+    if case.get('object') == 'manifest.Dependency' and 'ops' in case:
+        from mesonbuild.cargo import manifest as M
+        ops = [tuple(o) for o in case['ops']]
+        makers = {'str': lambda r: M.Dependency.from_raw('foo', r),
+                  'table': lambda r: M.Dependency.from_raw('foo', {'version': r}),
+                  'ctor': lambda r: M.Dependency('foo', r)}
+        wire, outs, fail = run_dependency_history(M, mex, makers.get(case.get('make'), makers['str']), case['init'], ops)
+        print('impl  :', ';'.join(outs))
+        print('oracle:', fail)
+        print('model :', ctx.driver('cargo', [f'hist {enc(case["init"])}|{",".join(wire)}']))
+    elif 'req' in case:
         req, vs = case['req'], case['ver']
         print('impl :', V.cargo_parse(req)(vs))
         print('oracle:', req_oracle(V, req, vs))
